@@ -785,6 +785,30 @@ def check_mutation(case):
     if oko:
         out.true(f"{name}:a returned value is not changed by a later call with other arguments", canon(r1) == c1,
                  "the value returned by the first call changed when the routine was called with different arguments")
+    # a TWIN of the arguments with the same shapes and bit-identical norms (every dense array negated): what the routine
+    # returns for it right after the original call must be what it returns for it after an unrelated call - a cache
+    # keyed on cheap fingerprints (shape, norm, trace) would confuse the twin with the original
+    def _twin(args_):
+        return [(-a if isinstance(a, np.ndarray) and a.dtype.kind in "fV" or (isinstance(a, np.ndarray) and a.dtype == np.quaternion) else a)
+                for a in args_]
+    if any(isinstance(a, np.ndarray) for a in args):
+        try:
+            with contextlib.redirect_stdout(io.StringIO()):
+                np.random.seed(case["seed"])
+                fn(*build(case))
+                np.random.seed(case["seed"])
+                t1 = canon(fn(*_twin(build(case))))
+                np.random.seed(case["seed"])
+                fn(*build(case2))
+                np.random.seed(case["seed"])
+                t2 = canon(fn(*_twin(build(case))))
+        except Exception:  # noqa: BLE001 - the negated arguments may be outside the routine's domain
+            out.label("twin_rejected")
+        else:
+            out.true(f"{name}:result for a norm-identical twin does not depend on the preceding call", t1 == t2,
+                     "f(-X) right after f(X) differs from f(-X) after an unrelated call")
+            out.label("twin_checked")
+        np.seterr(**err0)
     # same buffers, new contents: results must depend on the VALUE of the arguments, not on object identity
     args_new = build(case2)
     compatible = len(args_new) == len(args) and all(
